@@ -5,6 +5,6 @@ export GOFLAGS=-mod=mod GOPROXY=off GOSUMDB=off GOTOOLCHAIN=local
 (cd /verif/harness && go build -o /verif/bin/vh ./cmd/vh) || exit 1
 /verif/bin/vh prepare --out $R --tier ${TIER:-quick} --seed ${SEED:-1} $ONLY || exit 1
 VERIF_INFO_DIR=$R/info $R/bin/driver run $R/jobs.sexp $R/cases.sexp 2>/dev/null
-/verif/bin/modelrun $R/programs.sexp $R/cases.sexp $R/model.out
+/verif/bin/modelrun $R/programs.sexp $R/cases.sexp,$R/text.sexp $R/model.out
 tail -1 $R/model.out
 /verif/bin/vh eval --run $R; cat $R/cases.sexp $R/eval.sexp > $R/all.sexp; grep -c "^(corr .* 0 " $R/eval.sexp; python3 /verif/harness/oracle_summary.py $R/all.sexp ${W:-100} | cut -c1-${CUT:-220}
